@@ -299,7 +299,12 @@ func hasAttribute(obj interface{}, name string) bool {
 	if !rv.IsValid() {
 		return false
 	}
-	if rv.MethodByName(name).IsValid() {
+	// a method that can be read as an attribute takes no arguments
+	isAttrMethod := func(v reflect.Value) bool {
+		m := v.MethodByName(name)
+		return m.IsValid() && m.Type().NumIn() == 0
+	}
+	if isAttrMethod(rv) {
 		return true
 	}
 	for rv.Kind() == reflect.Ptr || rv.Kind() == reflect.Interface {
@@ -307,7 +312,7 @@ func hasAttribute(obj interface{}, name string) bool {
 			return false
 		}
 		rv = rv.Elem()
-		if rv.MethodByName(name).IsValid() {
+		if isAttrMethod(rv) {
 			return true
 		}
 	}
@@ -321,13 +326,10 @@ func hasAttribute(obj interface{}, name string) bool {
 		}
 		return rv.MapIndex(reflect.ValueOf(name).Convert(rv.Type().Key())).IsValid()
 	case reflect.Struct:
-		if rv.CanAddr() && rv.Addr().MethodByName(name).IsValid() {
+		// (methods with a pointer receiver are callable on a struct value too:
+		// the engine makes an addressable copy)
+		if m, ok := reflect.PtrTo(rv.Type()).MethodByName(name); ok && m.Type.NumIn() == 1 {
 			return true
-		}
-		if reflect.PtrTo(rv.Type()).NumMethod() > 0 {
-			if _, ok := reflect.PtrTo(rv.Type()).MethodByName(name); ok {
-				return true
-			}
 		}
 		f, ok := rv.Type().FieldByName(name)
 		return ok && f.PkgPath == ""
